@@ -699,9 +699,24 @@ class Zeroconf(QuietLogger):
                 )
             else:
                 self.unregister_all_services()
+                # Joining the browser threads can take a while, and the event
+                # loop keeps running meanwhile: a registration that was still
+                # probing may complete and announce its service. Look once
+                # more, and stop sending in the same step of the event loop.
+                self.remove_all_service_listeners()
+                run_coro_with_timeout(
+                    self._async_unregister_all_services_and_stop(),
+                    self.loop,
+                    _UNREGISTER_TIME * _REGISTER_BROADCASTS,
+                )
         self._close()
         self.engine.close()
         self._shutdown_threads()
+
+    async def _async_unregister_all_services_and_stop(self) -> None:
+        """Withdraw what is still registered and stop sending."""
+        await self.async_unregister_all_services()
+        self.done = True
 
     async def _async_close(self) -> None:
         """Ends the background threads, and prevent this instance from
